@@ -160,6 +160,9 @@ func GenConfig(prop, tier string, seed uint64) Config {
 	if prop == "C23" && c.KF != "" && r.Chance(0.6) {
 		c.KF = []string{"series-ref-reused-after-snapshot-restart", "snapshot-kept-when-head-chunk-file-lost-chunks-at-a-chunk-boundary"}[r.Intn(2)]
 	}
+	if (prop == "C22" || prop == "C03") && c.KF != "" && r.Chance(0.4) {
+		c.KF = []string{"mmapped-chunks-of-duplicate-series-ref-lost-after-snapshot-restart", "kill-during-head-chunk-repair-leaves-newer-files-and-loses-wal-samples"}[r.Intn(2)]
+	}
 	if prop == "C12" && (c.KF != "" && r.Chance(0.6) || c.KF == "" && r.Chance(0.1)) {
 		c.KF = "not-counter-reset-hint-kept-after-deleted-predecessor"
 	}
@@ -200,6 +203,12 @@ func GenConfig(prop, tier string, seed uint64) Config {
 		}
 		if r.Chance(0.3) {
 			c.RetentionMs = c.R * int64(r.Range(1, 6))
+		}
+	case "C22":
+		c.FastStart = r.Chance(0.5)
+		c.NSeries = r.Range(3, 8)
+		if r.Chance(0.3) {
+			c.Crash, c.ImgCap, c.TornMode, c.Queue = true, 6, 0, 0
 		}
 	case "C16":
 		c.RichLabels = true
